@@ -8,6 +8,7 @@ import (
 	"path/filepath"
 	"sort"
 
+	"github.com/JunNishimura/Goit/internal/atomicfile"
 	"github.com/JunNishimura/Goit/internal/object"
 	"github.com/JunNishimura/Goit/internal/sha"
 )
@@ -224,14 +225,10 @@ func (idx *Index) read(rootGoitPath string) error {
 
 func (idx *Index) write(rootGoitPath string) error {
 	indexPath := filepath.Join(rootGoitPath, "index")
-	f, err := os.Create(indexPath)
-	if err != nil {
-		return fmt.Errorf("fail to create .goit/index: %w", err)
-	}
-	defer f.Close()
+	buf := new(bytes.Buffer)
 
 	// fixed length encoding
-	if err := binary.Write(f, binary.BigEndian, &idx.Header); err != nil {
+	if err := binary.Write(buf, binary.BigEndian, &idx.Header); err != nil {
 		return fmt.Errorf("fail to write fixed-length encoding: %w", err)
 	}
 
@@ -244,8 +241,11 @@ func (idx *Index) write(rootGoitPath string) error {
 		data = append(data, bNameLength...)
 		data = append(data, entry.Path...)
 	}
-	if _, err := f.Write(data); err != nil {
-		return fmt.Errorf("fail to write variable-length encoding: %w", err)
+	buf.Write(data)
+
+	// a reader, a crash or a failed write must never see a truncated staging area
+	if err := atomicfile.Write(indexPath, rootGoitPath, buf.Bytes()); err != nil {
+		return fmt.Errorf("fail to write .goit/index: %w", err)
 	}
 
 	return nil
